@@ -18,3 +18,4 @@ import GeoVerif.Properties.C15
 import GeoVerif.Properties.C16
 import GeoVerif.Properties.C17
 import GeoVerif.Properties.C18
+import GeoVerif.Properties.C19
